@@ -1,4 +1,5 @@
 import CgreenModel.Lemmas.Runner
+import CgreenModel.Model.Cute
 /-!
 # C03 — reported totals equal what happened; every result is attributed to its test
 -/
@@ -81,5 +82,58 @@ theorem C03_F01_repaired : (readResults 0 false [.skipped, .pass, .completion]).
 
 example : (run ⟨4, .fork, .text⟩ (.node "top" false false [] [{ name := "t", body := [.check true, .check true, .check true, .check false, .check true] }])).tot
     = ⟨3, 1, 0, 1⟩ := by decide
+
+/-! ### What the CUTE reporter says about a test (`Model/Cute.lean`) -/
+
+theorem Cute.showFails_lines (m : Cute.Memo) (n : Nat) :
+    (Cute.showFails m n).2 = (if m.previousError = false ∧ n > 0 then [Cute.Line.failure] else [])
+    ∧ (Cute.showFails m n).1.errorCount = m.errorCount := by
+  induction n generalizing m with
+  | zero => simp [Cute.showFails]
+  | succ n ih =>
+    simp only [Cute.showFails, Cute.showFail]
+    split
+    · rename_i h; have := ih m; simp_all
+    · rename_i h; have := ih { m with previousError := true }; simp_all
+
+/-- **CUTE's per-test status.** Whatever the memo and the suite's counters hold when a test starts (whatever ran before it),
+forked or in the reporting process: the test gets its `#starting` line, one `#failure` line exactly when it failed a check,
+one `#error` line exactly when it ended abnormally, and `#success` exactly when no failure of it was counted and it completed. -/
+theorem C03_cute_status (forked : Bool) (m : Cute.Memo) (k : Cute.Counters) (shown delivered : Nat) (abnormal : Bool) :
+    (Cute.runTest Cute.startTest forked m k shown delivered abnormal).2.2 = Cute.spec shown delivered abnormal := by
+  have h := Cute.showFails_lines { errorCount := k.failures + k.exceptions, previousError := false } shown
+  simp only [Cute.runTest, Cute.startTest, Cute.finishTest, Cute.spec]
+  rw [h.1]
+  have he : (if forked = true then ({ errorCount := k.failures + k.exceptions, previousError := false } : Cute.Memo)
+      else (Cute.showFails { errorCount := k.failures + k.exceptions, previousError := false } shown).1).errorCount = k.failures + k.exceptions := by
+    split <;> simp [h.2]
+  simp only [he]
+  cases abnormal <;> simp <;> omega
+
+/-- ... for every sequence of tests of a suite, each on the memo and the counters its predecessors leave behind. -/
+theorem C03_cute_sequence (forked : Bool) (m : Cute.Memo) (k : Cute.Counters) (ts : List (Nat × Nat × Bool)) :
+    Cute.runTests Cute.startTest forked m k ts = ts.map (fun t => Cute.spec t.1 t.2.1 t.2.2) := by
+  induction ts generalizing m k with
+  | nil => rfl
+  | cons t ts ih =>
+    obtain ⟨s, d, a⟩ := t
+    simp only [Cute.runTests, List.map_cons]
+    rw [ih]
+    congr 1
+    exact C03_cute_status forked m k s d a
+
+/-- Witness for the seeded changes C13-A6 / C13-B8 / C03-B10 (the "failure shown" flag set once, not per test): invisible when
+every test has a process of its own, the second failing test of a process shows nothing otherwise. -/
+theorem C03_cute_flag_witness :
+    Cute.runTests Cute.startTestKeepFlag true ⟨0, false⟩ ⟨0, 0⟩ [(1, 1, false), (2, 2, false)] = [[.starting, .failure], [.starting, .failure]]
+    ∧ Cute.runTests Cute.startTestKeepFlag false ⟨0, false⟩ ⟨0, 0⟩ [(1, 1, false), (2, 2, false)] = [[.starting, .failure], [.starting]] := by decide
+
+/-- Witness for the seeded change C17-B (the baseline kept although the runner has reset the counters underneath it): a test that
+fails after such a reset is marked successful. -/
+theorem C03_cute_baseline_witness :
+    (Cute.runTest Cute.startTestKeepBaseline true ⟨1, false⟩ ⟨0, 0⟩ 1 1 false).2.2 = [.starting, .failure, .success] := by decide
+
+example : Cute.runTests Cute.startTest false ⟨7, true⟩ ⟨3, 1⟩ [(0, 0, false), (2, 2, false), (1, 0, true), (0, 0, true)]
+    = [[.starting, .success], [.starting, .failure], [.starting, .failure, .error], [.starting, .error]] := by decide
 
 end Cgreen
